@@ -116,6 +116,9 @@ func overlayFor() (map[string][]byte, map[string]string, error) {
 
 var funcRe = regexp.MustCompile(`(?m)^func (ZZH_[A-Za-z0-9_]+)\(`)
 
+// a harness may also serve other properties: "// zz:also C03 C19" on the line before func
+var alsoRe = regexp.MustCompile(`(?m)^// zz:also ([A-Z0-9 ]+)\n(?:.*\n)?func (ZZH_[A-Za-z0-9_]+)\(`)
+
 // selectHarnesses finds the harness names for the property and the packages (repo-relative dirs) that hold them.
 func selectHarnesses(ov map[string][]byte) (map[string]string, []string) {
 	names := map[string]string{} // harness -> dir (relative)
@@ -128,9 +131,13 @@ func selectHarnesses(ov map[string][]byte) (map[string]string, []string) {
 		if strings.HasSuffix(p, "_test.go") {
 			continue
 		}
+		also := map[string]string{}
+		for _, m := range alsoRe.FindAllStringSubmatch(string(b), -1) {
+			also[m[2]] = " " + m[1] + " "
+		}
 		for _, m := range funcRe.FindAllStringSubmatch(string(b), -1) {
 			n := m[1]
-			if *prop != "" && !strings.HasPrefix(n, "ZZH_"+*prop+"_") {
+			if *prop != "" && !strings.HasPrefix(n, "ZZH_"+*prop+"_") && !strings.Contains(also[n], " "+*prop+" ") {
 				continue
 			}
 			if re != nil && !re.MatchString(n) {
@@ -293,7 +300,11 @@ func run() int {
 				reproducedKnown[v.KnownTag] = true
 				lines = append(lines, fmt.Sprintf("KNOWN-FINDING: property=%s %s [%s label=%s replay=%s]", knownProp[v.KnownTag], knownWhat[v.KnownTag], v.KnownTag, v.Label, rp))
 			default:
-				lines = append(lines, fmt.Sprintf("VIOLATION property=%s replay=%s", propOf(h.Name()), rp))
+				pid := propOf(h.Name())
+				if *prop != "" {
+					pid = *prop
+				}
+				lines = append(lines, fmt.Sprintf("VIOLATION property=%s replay=%s", pid, rp))
 				lines = append(lines, fmt.Sprintf("  harness=%s label=%s", h.Name(), v.Label))
 				exit = 1
 			}
